@@ -92,7 +92,7 @@ fn masters_edge() -> Vec<Vec<Piece>> {
 }
 
 fn stays_inside(t: &[Piece], off: (i64, i64)) -> bool {
-    t.iter().all(|p| match p { Piece::Ref { row, col, ra, ca } => (*ra || *row as i64 + off.0 <= 1_048_575) && (*ca || *col as i64 + off.1 <= 16_383), _ => true })
+    t.iter().all(|p| match p { Piece::Ref { row, col, ra, ca } => (*ra || (0..=1_048_575).contains(&(*row as i64 + off.0))) && (*ca || (0..=16_383).contains(&(*col as i64 + off.1))), _ => true })
 }
 
 fn lit_class(t: &[Piece]) -> String {
@@ -169,11 +169,16 @@ fn build(ch: &mut Chooser, ms: &[Vec<Piece>]) -> FCase {
             if dr * w + dc < skip { /* plain value before the master */ }
             else if (dr, dc) == master { cell.formula = Some(xlsx::XFormula::SharedMaster { si, rf: rf.clone(), text: render(m, (0, 0)) }); expect.push(((r, c), render(m, (0, 0)))); }
             else if omit && (dr, dc) == (h - 1, w - 1) { /* plain value cell inside the range: a member only if it says so */ }
+            // a member left of / above a master that is not the top-left cell would move a reference off the sheet: no application
+            // writes that; the cell stays a plain value
+            else if !stays_inside(m, (dr as i64 - master.0 as i64, dc as i64 - master.1 as i64)) {}
             else { cell.formula = Some(xlsx::XFormula::SharedChild { si }); expect.push(((r, c), render(m, (dr as i64 - master.0 as i64, dc as i64 - master.1 as i64)))); }
             cells.push(cell);
         } }
     };
-    let (si_a, si_b) = if si_swapped { (1, 0) } else { (0, 1) };
+    // group indices are arbitrary numbers: 0,1 in document order, swapped, or sparse (3 and 7)
+    let sparse = ch.flag("si-values-sparse(3,7)");
+    let (si_a, si_b) = match (si_swapped, sparse) { (false, false) => (0, 1), (true, false) => (1, 0), (false, true) => (3, 7), (true, true) => (7, 3) };
     add_group(&mut cells, &mut expect, si_a, anchor, h, w, m, omit_member, skip);
     if two_groups {
         let m2 = &ms[(ms.len() / 2 + 7) % ms.len()];
@@ -186,7 +191,7 @@ fn build(ch: &mut Chooser, ms: &[Vec<Piece>]) -> FCase {
     expect.push(((anchor.0 + 10, anchor.1), "A1*2".into()));
     cells.push(plain);
     cells.push(xlsx::XCell::new(anchor.0 + 10, anchor.1 + 2, xlsx::XVal::Num("3".into())));
-    let enc = xlsx::XEnc { prefix: ch.flag("xlsx.prefix"), indent: ch.flag("xlsx.indented"), comments: ch.flag("xlsx.comments-between-elements"), extras: ch.flag("xlsx.optional-neighbours-of-sheetData"), rows_never_r: ch.flag("xlsx.rows-never-carry-r"), shared_members_carry_text: ch.flag("xlsx.members-repeat-the-master-text"), split_text_nodes: ch.flag("xlsx.formula-text-split-by-cdata-and-comments"), cell_r: if ch.flag("xlsx.cell-r-implicit") { xlsx::RMode::Implicit } else { xlsx::RMode::Explicit }, ..Default::default() };
+    let enc = xlsx::XEnc { prefix: ch.flag("xlsx.prefix"), indent: ch.flag("xlsx.indented"), comments: ch.flag("xlsx.comments-between-elements"), extras: ch.flag("xlsx.optional-neighbours-of-sheetData"), rows_never_r: ch.flag("xlsx.rows-never-carry-r"), shared_members_carry_text: ch.flag("xlsx.members-repeat-the-master-text"), split_text_nodes: ch.flag("xlsx.formula-text-split-by-cdata-and-comments"), cell_attrs_reversed: ch.flag("xlsx.attributes-of-c-and-f-in-reverse-order"), cell_r: if ch.flag("xlsx.cell-r-implicit") { xlsx::RMode::Implicit } else { xlsx::RMode::Explicit }, ..Default::default() };
     let bytes = xlsx::write(&xlsx::XBook { sheets: vec![xlsx::XSheet::new("S", cells)], ..Default::default() }, &enc);
     expect.sort();
     let desc = json!({"shape": [h, w], "master_cell": a1(anchor.0, anchor.1), "master": render(m, (0, 0)), "master_skips": skip, "second_group": second, "si_swapped": si_swapped, "member_without_formula": omit_member});
